@@ -422,7 +422,15 @@ func runRange(p *propDef, s *stream, lo, hi int, agg *aggregate) {
 		o3 := runUnit(p, s, k, k+1)
 		if o3.res != nil {
 			agg.merge(s, o3.res, 1)
-			agg.addInconclusive(fmt.Sprintf("%s[%d]: worker died (timeout=%v) but the case passed alone; not reproduced", s.name, k, o.timedOut))
+			if !o.timedOut && (strings.Contains(o.tail, "stack overflow") || strings.Contains(o.tail, "goroutine stack exceeds") || strings.Contains(o.tail, "concurrent map")) {
+				// a fatal error of the Go runtime raised by the code under test (not by the environment): the case kills
+				// the process at least sometimes - e.g. depending on map iteration order - even though it passed alone
+				d, _ := json.Marshal(map[string]interface{}{"kind": "crash-not-reproduced", "output": o.tail})
+				agg.addViolation(violation{Stream: s.name, Idx: k, Sig: "crash-not-reproduced",
+					Msg: "executing the case killed the process with a fatal runtime error (stack overflow / concurrent map access); it passed when run again alone, so the failure is not deterministic", Detail: d})
+			} else {
+				agg.addInconclusive(fmt.Sprintf("%s[%d]: worker died (timeout=%v) but the case passed alone; not reproduced", s.name, k, o.timedOut))
+			}
 		} else {
 			kind := "crash"
 			if o3.timedOut {
